@@ -385,7 +385,8 @@ std::vector<int> const& years_for(vf::Tier t)
 
 constexpr unsigned kLeapChunk = 512;
 
-enum Group { G_OK, G_LEAP, G_MONTH, G_WEEKDAY, G_YEAR, G_DAY, G_YM, G_YMD, G_YMDL, G_YMWD, G_BUILD, G_N };
+constexpr unsigned kStoredCases = 18; // see g_stored
+enum Group { G_OK, G_LEAP, G_MONTH, G_WEEKDAY, G_YEAR, G_DAY, G_YM, G_YMD, G_YMDL, G_YMWD, G_BUILD, G_STORED, G_N };
 std::uint64_t group_size(Group g, vf::Tier t)
 {
     std::uint64_t ny = years_for(t).size();
@@ -401,6 +402,7 @@ std::uint64_t group_size(Group g, vf::Tier t)
     case G_YMDL: return ny;
     case G_YMWD: return ny;
     case G_BUILD: return 1;
+    case G_STORED: return kStoredCases;
     default: return 0;
     }
 }
@@ -927,6 +929,181 @@ void g_ymwd(int y, std::vector<long long> const& ks, std::vector<long long> cons
     }
 }
 
+// ---- G_STORED : the standard defines month / weekday / day arithmetic for EVERY stored value of the unsigned field, not only ok() ones:
+//   month + months  = month{modulo((long long)unsigned{x} + (y.count() - 1), 12) + 1}          [time.cal.month.nonmembers]
+//   weekday + days  = weekday{modulo((long long)c_encoding + y.count(), 7)}                      [time.cal.wd.nonmembers]
+//   day + days      = day{unsigned{x} + y.count()}  (specified while the result stays in [0, 255])  [time.cal.day.nonmembers]
+//   year_month (+ day, _last, _weekday) + months : the z with z.ok() && z - ym == dm - which exists for a not-ok month as well.
+// Sweep: every stored value 0..255 (weekday: as constructible, 7 becomes 0) x deltas {0, +-1, +-11, +-12, +-13, +-255, +-256, large},
+// both operand orders, the compound forms, ++/--, and the chained forms.  `month - month` and `weekday - weekday` are NOT issued for
+// not-ok operands (unspecified by the standard); `day - day` is specified for all values.
+// Cases: 0..3 month 0..254 (64 values each), 4..7 weekday, 8..11 day, 12..15 composites (by month chunk), 16: month 255, 17: day 255 -
+// 255 in cases of its own: a precondition that rejects it must not hide the other values.
+char const* stored_sit(char const* field_ok, long long k) { (void)field_ok; return k == 0 ? "delta=0" : (k > 0 ? "delta>0" : "delta<0"); }
+void month_stored(unsigned m, std::vector<long long> const& ks)
+{
+    char args[96], sit[96];
+    char const* cls = m == 0 ? "stored=0" : (m <= 12 ? "stored-ok" : (m == 255 ? "stored=255" : "stored-13..254"));
+    for (long long k : ks) {
+        std::snprintf(args, sizeof args, "m=%u dm=%lld", m, k);
+        std::snprintf(sit, sizeof sit, "%s,%s", cls, stored_sit(cls, k));
+        std::uint64_t h = vf::mix(m + 7000, (std::uint64_t)k);
+        CMP("month", "month+months", sit, h, mo_add, args, m, k);
+        CMP("month", "months+month", sit, h, mo_radd, args, m, k);
+        CMP("month", "month-months", sit, h, mo_sub, args, m, k);
+        CMP("month", "month+=months", sit, h, mo_addeq, args, m, k);
+        CMP("month", "month-=months", sit, h, mo_subeq, args, m, k);
+        CMP("month", "(month+=months)-=months", sit, h, mo_ch_addsub, args, m, k);
+        CMP("month", "(month-=months)+=months", sit, h, mo_ch_subadd, args, m, k);
+    }
+    std::snprintf(args, sizeof args, "m=%u", m);
+    CMP("month", "++month", cls, m + 7000, mo_preinc, args, m, 0);
+    CMP("month", "month++", cls, m + 7000, mo_postinc, args, m, 0);
+    CMP("month", "--month", cls, m + 7000, mo_predec, args, m, 0);
+    CMP("month", "month--", cls, m + 7000, mo_postdec, args, m, 0);
+    CMP("month", "ok()/unsigned", cls, m + 7000, ([]<typename N>(unsigned mm, long long) { return v_month(typename N::month{mm}); }).template operator(), args, m, 0);
+}
+void weekday_stored(unsigned w, std::vector<long long> const& ks)
+{
+    char args[96], sit[96];
+    char const* cls = w <= 6 ? "stored-ok" : (w == 7 ? "constructed-from-7" : (w == 255 ? "stored=255" : "stored-8..254"));
+    for (long long k : ks) {
+        std::snprintf(args, sizeof args, "wd=%u days=%lld", w, k);
+        std::snprintf(sit, sizeof sit, "%s,%s", cls, stored_sit(cls, k));
+        std::uint64_t h = vf::mix(w + 8000, (std::uint64_t)k);
+        CMP("weekday", "weekday+days", sit, h, wd_add, args, w, k);
+        CMP("weekday", "days+weekday", sit, h, wd_radd, args, w, k);
+        CMP("weekday", "weekday-days", sit, h, wd_sub, args, w, k);
+        CMP("weekday", "weekday+=days", sit, h, wd_addeq, args, w, k);
+        CMP("weekday", "weekday-=days", sit, h, wd_subeq, args, w, k);
+        CMP("weekday", "(weekday+=days)-=days", sit, h, wd_ch_addsub, args, w, k);
+        CMP("weekday", "(weekday-=days)+=days", sit, h, wd_ch_subadd, args, w, k);
+    }
+    std::snprintf(args, sizeof args, "wd=%u", w);
+    CMP("weekday", "++weekday", cls, w + 8000, wd_preinc, args, w, 0);
+    CMP("weekday", "weekday++", cls, w + 8000, wd_postinc, args, w, 0);
+    CMP("weekday", "--weekday", cls, w + 8000, wd_predec, args, w, 0);
+    CMP("weekday", "weekday--", cls, w + 8000, wd_postdec, args, w, 0);
+    CMP("weekday", "weekday(unsigned)", cls, w + 8000, wd_ctor, args, w, 0);
+}
+void day_stored(unsigned d, std::vector<long long> const& ks, bool only255)
+{
+    char args[96], sit[96];
+    char const* cls = d == 0 ? "stored=0" : (d <= 31 ? "stored-ok" : (d == 255 ? "stored=255" : "stored-32..254"));
+    for (long long k : ks) {
+        long long const up = (long long)d + k, dn = (long long)d - k;
+        std::snprintf(args, sizeof args, "d=%u days=%lld", d, k);
+        std::uint64_t h = vf::mix(d + 9000, (std::uint64_t)k);
+        // results outside [0, 255] are unspecified; a result of exactly 255 goes to the 255 case
+        if (up >= 0 && up <= 255 && ((up == 255 || d == 255) == only255)) {
+            std::snprintf(sit, sizeof sit, "%s,%s%s", cls, stored_sit(cls, k), up == 255 ? ",result=255" : "");
+            CMP("day", "day+days", sit, h, dy_add, args, d, k);
+            CMP("day", "days+day", sit, h, dy_radd, args, d, k);
+            CMP("day", "day+=days", sit, h, dy_addeq, args, d, k);
+            CMP("day", "(day+=days)-=days", sit, h, dy_ch_addsub, args, d, k);
+        }
+        if (dn >= 0 && dn <= 255 && ((dn == 255 || d == 255) == only255)) {
+            std::snprintf(sit, sizeof sit, "%s,%s%s", cls, stored_sit(cls, k), dn == 255 ? ",result=255" : "");
+            CMP("day", "day-days", sit, h, dy_sub, args, d, k);
+            CMP("day", "day-=days", sit, h, dy_subeq, args, d, k);
+            CMP("day", "(day-=days)+=days", sit, h, dy_ch_subadd, args, d, k);
+        }
+    }
+    if (only255 && d == 254) { // ++ landing exactly on 255
+        std::snprintf(args, sizeof args, "d=%u", d);
+        CMP("day", "++day", "stored-32..254,result=255", d + 9000, dy_preinc, args, d, 0);
+        CMP("day", "day++", "stored-32..254,result=255", d + 9000, dy_postinc, args, d, 0);
+    }
+    if ((d == 255) != only255) { return; }
+    std::snprintf(args, sizeof args, "d=%u", d);
+    if (d < 254) {
+        CMP("day", "++day", cls, d + 9000, dy_preinc, args, d, 0);
+        CMP("day", "day++", cls, d + 9000, dy_postinc, args, d, 0);
+    }
+    if (d > 0) {
+        CMP("day", "--day", cls, d + 9000, dy_predec, args, d, 0);
+        CMP("day", "day--", cls, d + 9000, dy_postdec, args, d, 0);
+    }
+    CMP("day", "ok()/unsigned", cls, d + 9000, ([]<typename N>(unsigned dd, long long) { return v_day(typename N::day{dd}); }).template operator(), args, d, 0);
+    unsigned const others[] = {0, 1, 31, 32, 128, 254};
+    for (unsigned b : others) { // day - day is specified for every pair of stored values
+        std::snprintf(args, sizeof args, "a=%u b=%u", d, b);
+        CMP("day", "day-day", d >= b ? "a>=b" : "a<b", vf::mix(d + 9000, b), dy_diff, args, d, (long long)b);
+        CMP("day", "compare", d == b ? "a=b" : (d < b ? "a<b" : "a>b"), vf::mix(d + 9000, b), dy_cmp, args, d, (long long)b);
+    }
+}
+void composite_stored(unsigned m, std::vector<long long> const& ks)
+{
+    char args[96], sit[96];
+    char const* cls = m == 0 ? "month-stored=0" : (m <= 12 ? "month-ok" : (m == 255 ? "month-stored=255" : "month-stored-13..254"));
+    int const years[] = {-4, 1970, 2024};
+    for (int y : years) {
+        for (long long k : ks) {
+            if (k > 100000 || k < -100000) { continue; } // keep the carried year inside [-32767, 32767]
+            std::snprintf(args, sizeof args, "y=%d m=%u dm=%lld", y, m, k);
+            std::snprintf(sit, sizeof sit, "%s,%s", cls, stored_sit(cls, k));
+            std::uint64_t h = vf::mix(vf::mix((std::uint64_t)(y + 40000), m + 11000), (std::uint64_t)k);
+            CMP("year_month", "ym+months", sit, h, ym_add_m, args, y, m, k);
+            CMP("year_month", "months+ym", sit, h, ym_radd_m, args, y, m, k);
+            CMP("year_month", "ym-months", sit, h, ym_sub_m, args, y, m, k);
+            CMP("year_month", "ym+=months", sit, h, ym_addeq_m, args, y, m, k);
+            CMP("year_month", "ym-=months", sit, h, ym_subeq_m, args, y, m, k);
+            CMP("year_month_day", "ymd+months", sit, h, ymd_add_m, args, y, m, 31u, k);
+            CMP("year_month_day", "ymd-months", sit, h, ymd_sub_m, args, y, m, 31u, k);
+            CMP("year_month_day", "ymd+=months", sit, h, ymd_addeq_m, args, y, m, 0u, k);
+            CMP("year_month_day", "ymd-=months", sit, h, ymd_subeq_m, args, y, m, 254u, k);
+            CMP("year_month_day_last", "ymdl+months", sit, h, ymdl_add_m, args, y, m, k);
+            CMP("year_month_day_last", "ymdl-months", sit, h, ymdl_sub_m, args, y, m, k);
+            CMP("year_month_day_last", "ymdl+=months", sit, h, ymdl_addeq_m, args, y, m, k);
+            CMP("year_month_day_last", "ymdl-=months", sit, h, ymdl_subeq_m, args, y, m, k);
+            CMP("year_month_weekday", "ymwd+months", sit, h, ymwd_add_m, args, y, m, 3u, 2u, k);
+            CMP("year_month_weekday", "months+ymwd", sit, h, ymwd_radd_m, args, y, m, 3u, 2u, k);
+            CMP("year_month_weekday", "ymwd-months", sit, h, ymwd_sub_m, args, y, m, 3u, 2u, k);
+        }
+        long long const yks[] = {0, 1, -1, 400};
+        for (long long k : yks) { // + years leaves a not-ok month untouched
+            std::snprintf(args, sizeof args, "y=%d m=%u dy=%lld", y, m, k);
+            std::snprintf(sit, sizeof sit, "%s,%s", cls, stored_sit(cls, k));
+            std::uint64_t h = vf::mix(vf::mix((std::uint64_t)(y + 40000), m + 12000), (std::uint64_t)k);
+            CMP("year_month", "ym+years", sit, h, ym_add_y, args, y, m, k);
+            CMP("year_month", "ym-=years", sit, h, ym_subeq_y, args, y, m, k);
+            CMP("year_month_day", "ymd+years", sit, h, ymd_add_y, args, y, m, 29u, k);
+            CMP("year_month_day_last", "ymdl+=years", sit, h, ymdl_addeq_y, args, y, m, k);
+            CMP("year_month_weekday", "ymwd+years", sit, h, ymwd_add_y, args, y, m, 3u, 2u, k);
+        }
+    }
+}
+std::vector<long long> stored_deltas(bool for_days, vf::Rng* rng)
+{
+    std::vector<long long> ks = {0, 1, -1, 2, -2, 6, -6, 7, -7, 11, -11, 12, -12, 13, -13, 24, -24, 254, -254, 255, -255, 256, -256, 1000003, -1000003};
+    ks.push_back(for_days ? 2147483647ll : 2147483600ll);
+    ks.push_back(for_days ? -2147483647ll : -2147483600ll);
+    if (rng) {
+        ks = {0};
+        for (int i = 0; i < 10; ++i) { ks.push_back(rng->range(-300, 300)); }
+        for (int i = 0; i < 6; ++i) { ks.push_back(rng->range(-1000000000ll, 1000000000ll)); }
+    }
+    return ks;
+}
+void g_stored(unsigned part, vf::Rng* rng)
+{
+    if (part < 4) {
+        for (unsigned m = part * 64; m < part * 64 + 64 && m <= 254; ++m) { month_stored(m, stored_deltas(false, rng)); }
+    } else if (part < 8) {
+        for (unsigned w = (part - 4) * 64; w < (part - 4) * 64 + 64; ++w) { weekday_stored(w, stored_deltas(true, rng)); }
+    } else if (part < 12) {
+        for (unsigned d = (part - 8) * 64; d < (part - 8) * 64 + 64 && d <= 254; ++d) { day_stored(d, stored_deltas(true, rng), false); }
+    } else if (part < 16) {
+        for (unsigned m = (part - 12) * 64; m < (part - 12) * 64 + 64 && m <= 254; ++m) { composite_stored(m, stored_deltas(false, rng)); }
+    } else if (part == 16) {
+        month_stored(255, stored_deltas(false, rng));
+        composite_stored(255, stored_deltas(false, rng));
+    } else {
+        day_stored(255, stored_deltas(true, rng), true);
+        for (unsigned d = 0; d <= 254; ++d) { day_stored(d, stored_deltas(true, rng), true); } // the (d, delta) pairs whose result is exactly 255
+    }
+}
+
 // ---- G_BUILD : operator/ builders and comparisons of the composite types
 template <typename N> Val b_y_m(int y, unsigned m, unsigned) { return v_ym(typename N::year{y} / typename N::month{m}); }
 template <typename N> Val b_y_int(int y, unsigned m, unsigned) { return v_ym(typename N::year{y} / (int)m); }
@@ -1129,6 +1306,7 @@ void run_case(vf::Case& c)
         case G_YMDL: g_ymdl(ys[i], month_deltas(wide), year_deltas(ys[i])); break;
         case G_YMWD: g_ymwd(ys[i], month_deltas(wide), year_deltas(ys[i])); break;
         case G_BUILD: g_build(); break;
+        case G_STORED: g_stored((unsigned)i, nullptr); break;
         default: break;
         }
         if (vf::want_sample("grid-case")) { vf::sample("grid-case", "enumerated case %llu = group %d item %llu", (unsigned long long)c.index, g, (unsigned long long)i); }
@@ -1141,7 +1319,8 @@ void run_case(vf::Case& c)
     for (int i = 0; i < 6; ++i) { ks.push_back(c.rng.range(-786000, 786000)); }
     for (int i = 0; i < 4; ++i) { yks.push_back(c.rng.range(-65534, 65534)); }
     yks.push_back(c.rng.range(-5, 5));
-    switch (c.rng.below(8)) {
+    switch (c.rng.below(9)) {
+    case 8: g_stored((unsigned)c.rng.below(kStoredCases), &c.rng); break;
     case 0: g_month((unsigned)c.rng.range(1, 12), &c.rng); break;
     case 1: g_weekday((unsigned)c.rng.range(0, 6), &c.rng); break;
     case 2: g_year(y, &c.rng); break;
